@@ -599,6 +599,20 @@ func c37Judge(up *c37Upstream, c c37Case, obs []c37Obs) (sig string, nontrivial 
 				case truncOK:
 					mech = "truncated"
 				}
+				if mech == "truncated" {
+					// control: the same text with its whitespace runs collapsed (same parse, no truncation).
+					// If that is forwarded as well, the 512-byte cut is not what let the text through.
+					short := strings.Join(strings.Fields(f), " ")
+					if len(short) <= 512 && short != strings.TrimSpace(f) {
+						ctl, rerr := c37Run(up, c37Case{Allow: c.Allow, Deny: c.Deny, Queries: []string{short}})
+						if rerr != nil {
+							return "", false, nil, rerr
+						}
+						if len(ctl[0].Forwarded) > 0 {
+							mech = ""
+						}
+					}
+				}
 			}
 			switch {
 			case len(bad) > 0:
@@ -610,7 +624,7 @@ func c37Judge(up *c37Upstream, c c37Case, obs []c37Obs) (sig string, nontrivial 
 					why = fmt.Sprintf("the text is %d bytes; its first 512 bytes + \"...\" name only allowed topics, the full text does not", len(strings.TrimSpace(f)))
 				case "cached":
 					key = "cached-decision-reused-for-different-text"
-					why = fmt.Sprintf("alone the text is denied; after %q (same decision-cache key) it is forwarded", cachedTwin)
+					why = fmt.Sprintf("alone the text is denied; after %q (same decision-cache key) it is forwarded", c37Short(cachedTwin))
 				}
 				viols = append(viols, c37Viol{Key: key, Case: one,
 					Detail: fmt.Sprintf("ACL allow=%q deny=%q: forwarded %q; the upstream downloaded segments of %q, of which %q are not allowed (%s) [%s]", c.Allow, c.Deny, c37Short(f), o.Read, bad, why, c.Label)})
